@@ -79,6 +79,10 @@ def gen(tier, seed):
         for v in (ch, "a" + ch + "b", ch + ",x", "x;" + ch):
             yield {"CN": v}
             yield {"MEMBER": [v, "b"]}
+    # parameter NAMES over the whole iana-token / x-name grammar 1*(ALPHA / DIGIT / "-"): a leading digit or hyphen, digits only, one character
+    for nm in ("1st-choice", "2fa", "-x-flag", "9", "X-9", "x", "A-", "a1-b2", "0-0", "X-VERY-LONG-PARAMETER-NAME-WITH-MANY-PARTS-0123456789"):
+        yield {nm: "v"}
+        yield {nm: ["a", "b,c"], "CN": "x"}
     for _ in range(1500 if tier == "quick" else 20000):
         n = rnd.randint(1, 4 if tier != "quick" else 3)
         lst = ["".join(rnd.choice(ALPHA) for _ in range(rnd.randint(0, 12))) for _ in range(n)]
